@@ -782,6 +782,25 @@ fn start_client(client: Client, addr: std::net::SocketAddr, cfg: Cfg) {
                 k += 1;
             }
         }
+        // quiet phase (C02 keep-alive): the application asks for keep-alive, stays silent for `quiet_ms` (longer than
+        // the idle timeout), then sends one more small stream, which must still get through
+        if cfg.quiet_ms > 0 {
+            let mut h = handle.clone();
+            match h.keep_alive(true) {
+                Ok(()) => log("c", "keep-alive on".to_string()),
+                Err(e) => log("c", format!("err - keep_alive {}", dbg(&e))),
+            }
+            io::time::delay(Duration::from_millis(cfg.quiet_ms)).await;
+            match h.open_send_stream().await {
+                Ok(send) => {
+                    let sid: u64 = send.id().into();
+                    log("c", format!("open {sid} uni"));
+                    let key = cfg::stream_key(cfg.seed, sid, false);
+                    write_all("c", send, key, 777, cfg.clone(), None, 0x7c).await;
+                }
+                Err(e) => log("c", format!("err - open_send_stream {}", dbg(&e))),
+            }
+        }
         log("c", "done".to_string());
         // linger so that final ACKs / closes are exchanged and observed
         io::time::delay(Duration::from_millis(3 * cfg.delay_ms + 50)).await;
